@@ -35,7 +35,7 @@ Print Assumptions C16_propose_library_nil_deneb.
    failed): the duty ends with an error after signing; no relay is asked and nothing is submitted. *)
 Theorem C16_propose_blinded_without_auction_falls_back : forall i p,
   reaches i p -> pr_blinded p = true -> no_auction_result i ->
-  propose_now i = ({| t_graffiti := graffiti_of (p1_graffiti i); t_signed := true; t_unblind := []; t_submitted := false |},
+  propose_now i = ({| t_graffiti := graffiti_of (p1_graffiti i) (p1_node_client i); t_signed := true; t_unblind := []; t_submitted := false |},
                    Err ENoAuction).
 Proof. exact propose_blinded_without_auction. Qed.
 Print Assumptions C16_propose_blinded_without_auction_falls_back.
@@ -77,21 +77,29 @@ Theorem C16_propose_order : forall i,
 Proof. exact propose_order. Qed.
 Print Assumptions C16_propose_order.
 
-(* The graffiti handed to the beacon node is always 32 bytes: graffiti of any length is truncated
-   or zero-padded, and a failing graffiti provider means an ungraffitied block. *)
+(* The graffiti handed to the beacon node is always 32 bytes: graffiti of any length -- after the
+   {{CLIENT}} replacement when the proposal provider can name its client, for a name of any length --
+   is truncated or zero-padded, and a failing graffiti provider means an ungraffitied block. *)
 Theorem C16_propose_graffiti_falls_back : forall i,
   length (t_graffiti (fst (propose_now i))) = 32%nat /\
   (p1_graffiti i = GErr -> t_graffiti (fst (propose_now i)) = repeat 0 32) /\
-  (forall l, p1_graffiti i = GBytes l -> (length l <= 32)%nat -> firstn (length l) (t_graffiti (fst (propose_now i))) = l) /\
-  (forall l, p1_graffiti i = GBytes l -> (32 <= length l)%nat -> t_graffiti (fst (propose_now i)) = firstn 32 l).
+  (forall l, p1_graffiti i = GBytes l ->
+     let l' := client_replaced l (p1_node_client i) in
+     ((length l' <= 32)%nat -> firstn (length l') (t_graffiti (fst (propose_now i))) = l') /\
+     ((32 <= length l')%nat -> t_graffiti (fst (propose_now i)) = firstn 32 l')) /\
+  (forall l, (can_name (p1_node_client i) = false \/ contains tmpl_client l = false) ->
+     client_replaced l (p1_node_client i) = l).
 Proof.
   intro i. rewrite propose_graffiti. split; [apply graffiti_of_length|]. split; [intros ->; reflexivity|].
-  split; intros l -> H; cbn [graffiti_of]; [apply pad32_prefix | apply pad32_long]; exact H.
+  split.
+  - intros l -> l'. cbn [graffiti_of]. fold l'. split; intro H; [apply pad32_prefix | apply pad32_long]; exact H.
+  - intros l [H|H]; unfold client_replaced; [|rewrite H; reflexivity].
+    destruct (contains tmpl_client l); [|reflexivity]. destruct (p1_node_client i); try reflexivity. discriminate.
 Qed.
 Print Assumptions C16_propose_graffiti_falls_back.
 
 Example C16_propose_example :
-  let i := {| p1_graffiti := GBytes [118; 111; 117; 99; 104]; p1_auction := AErr;
+  let i := {| p1_graffiti := GBytes [118; 111; 117; 99; 104]; p1_node_client := NCNot; p1_auction := AErr;
               p1_proposal := Some {| pr_version := 5; pr_blinded := true; pr_present := true; pr_slot_ok := true |};
               p1_sign_ok := true; p1_unblind_all := false; p1_unblind_ok := true; p1_submit_ok := true |} in
   delivered i /\ reaches i {| pr_version := 5; pr_blinded := true; pr_present := true; pr_slot_ok := true |} /\ no_auction_result i /\
@@ -376,12 +384,12 @@ Print Assumptions C16_dynamic_falls_back.
 
 (* The whole graffiti chain, from the bytes of the graffiti file to what each beacon node is sent:
    whichever line is chosen, whatever the nodes call themselves, no panic, 32 bytes each. *)
-Theorem C16_graffiti_chain_no_panic : forall d line ps,
+Theorem C16_graffiti_chain_no_panic : forall d line nc ps,
   In line (graffiti_lines d) ->
-  exists l, graffiti_now (graffiti_of (GBytes line)) ps = Ok l /\ length l = length ps /\
+  exists l, graffiti_now (graffiti_of (GBytes line) nc) ps = Ok l /\ length l = length ps /\
             Forall (fun x => length x = 32%nat) l.
 Proof.
-  intros d line ps _. destruct (graffiti_now_ok ps (graffiti_of (GBytes line))) as (l & H1 & H2 & H3).
+  intros d line nc ps _. destruct (graffiti_now_ok ps (graffiti_of (GBytes line) nc)) as (l & H1 & H2 & H3).
   exists l. repeat split; try assumption. apply H3. apply graffiti_of_length.
 Qed.
 Print Assumptions C16_graffiti_chain_no_panic.
